@@ -149,6 +149,83 @@ def _global_writes(fn, module_names):
     return out
 
 
+def _alias_writes(fn, roots=None):
+    """in-place mutation through a LOCAL NAME that aliases state reachable from `roots` (default: the first parameter, self):
+    `x = self.a` / `x = self.a.b[k]` / `x = y` (y an alias) / `for x in <alias or self.a>` followed by a mutating call on x,
+    a subscript / attribute store into x, `del x[..]`, or `x += <list, comprehension, or anything that is not a number or string>`.
+    A local bound ONLY to fresh objects (displays, comprehensions, constructor calls, operators, constants) is not an alias.
+    Flow-insensitive on purpose (an alias anywhere in the function counts): that can only over-approximate aliasing."""
+    if roots is None:
+        if not fn.args.args:
+            return []
+        roots = {fn.args.args[0].arg}
+    roots = set(roots)
+
+    def rooted(e, aliases):
+        # the value is (part of) an object reachable from a root or an alias: attribute / subscript chains and bare names
+        while isinstance(e, (ast.Attribute, ast.Subscript)):
+            e = e.value
+        return isinstance(e, ast.Name) and (e.id in roots or e.id in aliases)
+    binds = []          # (name, value expression) for every simple local binding
+    for n in ast.walk(fn):
+        if isinstance(n, ast.Assign):
+            for t in n.targets:
+                if isinstance(t, ast.Name):
+                    binds.append((t.id, n.value))
+                elif isinstance(t, (ast.Tuple, ast.List)) and isinstance(n.value, (ast.Tuple, ast.List)) and len(t.elts) == len(n.value.elts):
+                    for a, b in zip(t.elts, n.value.elts):
+                        if isinstance(a, ast.Name):
+                            binds.append((a.id, b))
+        elif isinstance(n, (ast.For, ast.comprehension)) and isinstance(n.target, ast.Name):
+            binds.append((n.target.id, n.iter))       # an element of a rooted container is rooted
+        elif isinstance(n, ast.NamedExpr) and isinstance(n.target, ast.Name):
+            binds.append((n.target.id, n.value))
+    aliases, changed = {}, True
+    while changed:
+        changed = False
+        for name, v in binds:
+            if name in aliases or name in roots:
+                continue
+            vs = [v]
+            if isinstance(v, ast.IfExp):
+                vs = [v.body, v.orelse]
+            elif isinstance(v, ast.BoolOp):
+                vs = list(v.values)
+            for x in vs:
+                if isinstance(x, (ast.Attribute, ast.Subscript, ast.Name)) and rooted(x, aliases) and not (
+                        isinstance(x, ast.Name) and x.id in roots):
+                    aliases[name] = ast.unparse(x)
+                    changed = True
+                    break
+    out = []
+    for n in ast.walk(fn):
+        if isinstance(n, ast.Call) and isinstance(n.func, ast.Attribute) and n.func.attr in MUTATORS:
+            e = n.func.value
+            while isinstance(e, (ast.Attribute, ast.Subscript)):
+                e = e.value
+            if isinstance(e, ast.Name) and e.id in aliases:
+                out.append((n.lineno, '%s (alias of %s)' % (e.id, aliases[e.id]), 'call .%s()' % n.func.attr))
+        ts = []
+        if isinstance(n, (ast.Assign, ast.Delete)):
+            ts = n.targets
+        elif isinstance(n, ast.AugAssign):
+            ts = [n.target]
+        for t in ts:
+            for e0 in (t.elts if isinstance(t, (ast.Tuple, ast.List)) else [t]):
+                e = e0
+                while isinstance(e, (ast.Attribute, ast.Subscript)):
+                    e = e.value
+                if isinstance(e, ast.Name) and e.id in aliases and e is not e0:
+                    out.append((n.lineno, '%s (alias of %s)' % (e.id, aliases[e.id]), 'store'))
+        if isinstance(n, ast.AugAssign) and isinstance(n.target, ast.Name) and n.target.id in aliases:
+            v = n.value
+            numeric = isinstance(v, ast.Constant) or (isinstance(v, ast.Call) and isinstance(v.func, ast.Name) and v.func.id in ('len', 'int', 'str', 'ord')) \
+                or isinstance(v, (ast.JoinedStr, ast.BinOp)) and not any(isinstance(x, (ast.List, ast.ListComp)) for x in ast.walk(v))
+            if not numeric:
+                out.append((n.lineno, '%s (alias of %s)' % (n.target.id, aliases[n.target.id]), 'augmented assignment (in place for lists)'))
+    return out
+
+
 def _mutable_defaults(fn):
     """a mutable default-argument object that the function itself mutates (or hands to a mutating call / stores away):
     the one object is then shared by all calls"""
@@ -217,6 +294,7 @@ def register(reg):
                         if (rel, cn, fn.name) == MEMO[:3]:
                             w = [x for x in w if x[1].split('.', 1)[1] != MEMO[3]]
                         bad += w
+                        bad += _alias_writes(fn)
                     bad += _global_writes(fn, module_names)
                     ctx.prove('frame:%s.%s: writes nothing that outlives the call' % (cn, fn.name), not bad, 'frame',
                               src='%s: %s' % (rel, '; '.join('line %d: %s (%s)' % b for b in bad[:6])))
